@@ -549,6 +549,17 @@ func (broker *Broker) canDelete(file sts.File) bool {
 	return false
 }
 
+// changedSinceCached tells whether the file on disk differs from the cached
+// version (it was modified, or created anew under the same name, after that
+// version was hashed and sent).  Such a file is not the one the receiver
+// confirmed, so it must never be deleted on the strength of that confirmation;
+// the next scan picks it up as a new version.
+func (broker *Broker) changedSinceCached(cached sts.Cached) bool {
+	store := broker.Conf.Store
+	f, err := store.Sync(cached)
+	return f != nil || (err != nil && !store.IsNotExist(err))
+}
+
 func (broker *Broker) scan() []sts.Hashed {
 	var err error
 	var files []sts.File
@@ -615,6 +626,10 @@ func (broker *Broker) scan() []sts.Hashed {
 			// Add any that might have failed the hash calculation last time
 			wrapped = append(wrapped, &hashFile{File: cached})
 		case cached.IsDone() && broker.canDelete(cached):
+			if broker.changedSinceCached(cached) {
+				// It is not the file that was sent and confirmed
+				break
+			}
 			err = broker.Conf.Store.Remove(cached)
 			if err != nil {
 				broker.error("Failed to delete aged file:", cached.GetName())
@@ -1278,6 +1293,10 @@ func (broker *Broker) finish(file sts.Polled) {
 		// picked up again to be sent redundantly.
 		broker.Conf.Cache.Done(file.GetName(), func(cached sts.Cached) {
 			if broker.canDelete(cached) {
+				if broker.changedSinceCached(cached) {
+					broker.info("Not deleting changed file:", cached.GetName())
+					return
+				}
 				if err := broker.Conf.Store.Remove(cached); err != nil {
 					broker.error("Failed to delete:", cached.GetName(), err.Error())
 					return
